@@ -111,7 +111,8 @@ def run(ctx):
                    {"broken": failing, "log": log[-3000:]}, no_input=True)
     quick = ctx.tier == "quick"
     rng = ctx.rng
-    tables = gentables.naming_tables()
+    tables = gentables.naming_tables(lenient=True)
+    tables.pop("problems")      # already reported by gentables.regenerate: the search for reserved identifiers goes on with the lists
 
     # ---------------------------------------------------------------- (1) identifiers
     import keyword
@@ -125,6 +126,12 @@ def run(ctx):
     names = list(CORPUS)
     for lang in tables:
         names += [w for w in tables[lang]["reserved"] if re.fullmatch(r"[a-z][a-zA-Z0-9]{0,63}", w)]
+        # reserved words with underscores cannot be model names, but the camelCase names whose snake_case form they are can
+        # (staticCast -> static_cast, threadLocal -> thread_local, wcharT -> wchar_t)
+        for w in tables[lang]["reserved"]:
+            if "_" in w.strip("_") and re.fullmatch(r"[a-z][a-z0-9_]*", w):
+                parts = [x for x in w.split("_") if x]
+                names.append(parts[0] + "".join(x[0].upper() + x[1:] for x in parts[1:]))
     for _ in range(300 if quick else 3000):
         n = rng.choice("abcdefghijklmnopqrstuvwxyz") + "".join(rng.choice("abcdeXYZ019") for _ in range(rng.randint(0, 9)))
         names.append(n)
@@ -143,6 +150,8 @@ def run(ctx):
             if got in res:
                 ctx.report("reserved-identifier:%s:%s" % (lang, kind), "the %s %s identifier for the model name '%s' is the reserved word '%s'"
                            % (lang, kind, r["in"], got), {"name": r["in"], "language": lang, "kind": kind, "identifier": got})
+            if rule is None:
+                continue
             tested = cased if rule["checked"] == "cased" else r["in"]
             want = cased + rule["suffix"] if tested in res else cased
             if got != want:
@@ -333,6 +342,11 @@ def reserved_words_model(tables, rng):
     words = sorted({w for lang in tables for w in tables[lang]["reserved"] if re.fullmatch(r"[a-z][a-zA-Z0-9]{0,30}", w)})
     words = [w for w in words if w not in ("size", "string", "bool", "int", "float", "double", "long", "date", "time")] + \
             ["self", "value", "index", "data", "type", "shape", "dtype", "get", "print", "id", "np", "yardl", "std", "none", "true", "false"]
+    for lang in tables:
+        for w in tables[lang]["reserved"]:
+            if "_" in w.strip("_") and re.fullmatch(r"[a-z][a-z0-9_]*", w):
+                parts = [x for x in w.split("_") if x]
+                words.append(parts[0] + "".join(x[0].upper() + x[1:] for x in parts[1:]))      # staticCast -> static_cast
     words = sorted(set(words))
     rng.shuffle(words)
     chunks = [words[i:i + 40] for i in range(0, len(words), 40)]
